@@ -154,8 +154,8 @@ def run(tier, seed):
                 'work budget; whatever bytes come back are walked by the independent structural walker (header length, container sums, '
                 'flag category per type, extended-length bit, ceil(len/8) prefixes, TLV / capability nesting); plus %d writes of real '
                 'sessions. distinct_nontrivial = distinct (family, class vector, outcome) triples' % (n08, n06, n07, ns),
-        'samples': [{'family': 'tunnel_encap', 'class_vector': ['core', 'enc=new', 'pref=max'], 'outcome': 'clean'},
-                    {'family': 'flowspec6', 'class_vector': ['core', 'len=9', 'offset=1'], 'outcome': 'walked'}],
+        'samples': [{'family': c[0], 'class_vector': list(c[1]), 'kind': c[2], 'payload': c[3]}
+                    for i in report.pick(range(n08), seed, 3) for c in itertools.islice(pools_c08.c08_cases(tier), i, i + 1)],
         'distinct_outcome_classes_with_problems': dirty, 'exhaustive': True, 'violation_keys': summary,
     }
     report.write_evidence(PROP, tier, seed, 'exploration', cov,
